@@ -556,6 +556,12 @@ bool QXmppStunMessage::decode(const QByteArray &buffer, const QByteArray &key, Q
         stream >> a_length;
         const int pad_length = 4 * ((a_length + 3) / 4) - a_length;
 
+        // the value must fit into what is left of the message
+        if (a_length > length - done - 4) {
+            *errors << u"Received a truncated STUN attribute"_s;
+            return false;
+        }
+
         // only FINGERPRINT is allowed after MESSAGE-INTEGRITY
         if (after_integrity && a_type != Fingerprint) {
             *errors << u"Skipping attribute %1 after MESSAGE-INTEGRITY"_s.arg(QString::number(a_type));
